@@ -55,7 +55,9 @@ mutual
 theorem restore_rel (t : Tree) (s : St) : R s (restore t s) := by
   cases t with
   | leaf c i info => simp only [restore]; exact h.put _ _
-  | node c ks => simp only [restore]; exact restoreRev_rel ks s
+  | node c ks =>
+    simp only [restore]
+    exact h.trans (h.ev _ _ (fun e => by cases e)) (restoreRev_rel ks _)
 theorem restoreRev_rel (ts : List Tree) (s : St) : R s (restoreRev ts s) := by
   cases ts with
   | nil => simp only [restoreRev]; exact h.refl _
@@ -179,7 +181,9 @@ theorem matchedStep_rel (cfg : Cfg) (startT : Option Tree) (sn : Option (Option 
     · split
       · split
         · exact h.refl _
-        · exact h.refl _
+        · split
+          · exact h.trans (restore_rel h t s) (restoreRc_rel h _ _)
+          · exact h.refl _
         · split
           · exact h.refl _
           · exact h.refl _
@@ -222,12 +226,14 @@ theorem enterState_leak (n : Option Name) (s2 : St) :
   | some n =>
     by_cases hn : n = 0
     · subst hn
-      simp only [enterState, ghostIf, truthy]
-      exact h.empty _ _ (h.refl _)
+      have hp := ghostIf_rel h (s2.sym.clashes 0) .nameClash s2 (fun e => by cases e)
+      simp only [enterState, truthy]
+      exact h.trans hp (h.empty _ _ (h.refl _))
     · have ht : truthy (some n) = true := by simp [truthy, hn]
       have hn' : (n == 0) = false := by simp [hn]
-      simp only [ht, ghostIf, enterState, hn']
-      exact h.leak _ n _ _ (Or.inl rfl) (h.refl _)
+      have hp := ghostIf_rel h (s2.sym.clashes n) .nameClash s2 (fun e => by cases e)
+      simp only [ht, enterState, hn']
+      exact h.trans hp (h.leak _ n _ _ (Or.inl rfl) (h.refl _))
 
 theorem blockStart_rel {f : F} (hf : FRel R f) (fuel : Nat) (cfg : Cfg) (s : St)
     (r : StartRes) (s1 : St) (heq : blockStart env f fuel cfg s = (r, s1)) :
@@ -276,12 +282,14 @@ theorem condExit_bracket (tn : Option Name) (s2 sL : St) (hl : R (enterState tn 
   | some n =>
     by_cases hn : n = 0
     · subst hn
-      simp only [enterState, ghostIf, truthy, condExit] at hl ⊢
-      exact h.empty _ _ hl
+      have hp := ghostIf_rel h (s2.sym.clashes 0) .nameClash s2 (fun e => by cases e)
+      simp only [enterState, truthy, condExit] at hl ⊢
+      exact h.trans hp (h.empty _ _ hl)
     · have ht : truthy (some n) = true := by simp [truthy, hn]
       have hn' : (n == 0) = false := by simp [hn]
-      simp only [ht, ghostIf, enterState, hn', condExit] at hl ⊢
-      exact h.exit _ _ _ hl
+      have hp := ghostIf_rel h (s2.sym.clashes n) .nameClash s2 (fun e => by cases e)
+      simp only [ht, enterState, hn', condExit] at hl ⊢
+      exact h.trans hp (h.exit _ _ _ hl)
 
 /-- not leaving it -/
 theorem leak_bracket (tn : Option Name) (s2 sL : St) (hl : R (enterState tn s2) sL) :
@@ -291,12 +299,14 @@ theorem leak_bracket (tn : Option Name) (s2 sL : St) (hl : R (enterState tn s2) 
   | some n =>
     by_cases hn : n = 0
     · subst hn
-      simp only [enterState, ghostIf, truthy] at hl ⊢
-      exact h.empty _ _ hl
+      have hp := ghostIf_rel h (s2.sym.clashes 0) .nameClash s2 (fun e => by cases e)
+      simp only [enterState, truthy] at hl ⊢
+      exact h.trans hp (h.empty _ _ hl)
     · have ht : truthy (some n) = true := by simp [truthy, hn]
       have hn' : (n == 0) = false := by simp [hn]
-      simp only [ht, ghostIf, enterState, hn'] at hl ⊢
-      exact h.leak _ n _ _ (Or.inl rfl) hl
+      have hp := ghostIf_rel h (s2.sym.clashes n) .nameClash s2 (fun e => by cases e)
+      simp only [ht, enterState, hn'] at hl ⊢
+      exact h.trans hp (h.leak _ n _ _ (Or.inl rfl) hl)
 
 theorem blockTail_rel (cfg : Cfg) (startT : Option Tree) (tn : Option Name) (v : LoopVars)
     (fe : Bool) (s3 : St) : R s3 (blockTail env cfg startT tn v fe s3).2 := by
@@ -394,12 +404,14 @@ theorem seqNR_rel {f : F} (hf : FRel R f) (q : Quirks)
 theorem main0Match_rel {f : F} (hf : FRel R f) (fuel : Nat) (cfg : Cfg) (scope : Name) (s : St) :
     R s (main0Match env f fuel cfg scope s).2 := by
   unfold main0Match
-  have h1 := blockMatch_rel h hf fuel cfg (s.enter scope)
-  generalize blockMatch env f fuel cfg (s.enter scope) = br at h1
+  have hp := ghostIf_rel h (s.sym.clashes scope) .nameClash s (fun e => by cases e)
+  generalize ghostIf (s.sym.clashes scope) Ghost.nameClash s = sp at hp ⊢
+  have h1 := blockMatch_rel h hf fuel cfg (sp.enter scope)
+  generalize blockMatch env f fuel cfg (sp.enter scope) = br at h1
   obtain ⟨r, s2⟩ := br
   simp only at h1
-  have hexit := h.exit _ _ _ h1
-  have hleak := h.leak _ scope _ _ (Or.inr rfl) h1
+  have hexit := h.trans hp (h.exit _ _ _ h1)
+  have hleak := h.trans hp (h.leak _ scope _ _ (Or.inr rfl) h1)
   cases r with
   | raise e =>
     simp only
